@@ -25,6 +25,7 @@ type Prog struct {
 	pkgs           map[string]*ssa.Package
 	errorType      types.Type
 	errorStringPtr types.Type
+	vidx           sync.Map // *ssa.Function -> map[ssa.Value]int
 	intr           sync.Map // *ssa.Function -> intrinsicFn (nil func = miss)
 	mapOrders      bool
 	overlay        map[string][]byte
@@ -118,6 +119,38 @@ func LoadProg(repoDir, harnessDir string) (*Prog, error) {
 		return nil, fmt.Errorf("errors.errorString not found")
 	}
 	return p, nil
+}
+
+// valueIndex numbers the SSA values of a function (parameters, free variables,
+// locals and value-producing instructions) so that frames can use a slice.
+func (p *Prog) valueIndex(fn *ssa.Function) map[ssa.Value]int {
+	if m, ok := p.vidx.Load(fn); ok {
+		return m.(map[ssa.Value]int)
+	}
+	m := map[ssa.Value]int{}
+	add := func(v ssa.Value) {
+		if _, ok := m[v]; !ok {
+			m[v] = len(m)
+		}
+	}
+	for _, x := range fn.Params {
+		add(x)
+	}
+	for _, x := range fn.FreeVars {
+		add(x)
+	}
+	for _, x := range fn.Locals {
+		add(x)
+	}
+	for _, b := range fn.Blocks {
+		for _, ins := range b.Instrs {
+			if v, ok := ins.(ssa.Value); ok {
+				add(v)
+			}
+		}
+	}
+	p.vidx.Store(fn, m)
+	return m
 }
 
 func (p *Prog) harnessFunc(name string) *ssa.Function {
